@@ -366,7 +366,7 @@ def lambda_cases(tier):
     i = 0
     for lam in G.LAMBDAS:
         for host in G.HOSTS:
-            for indent in (["0", "4", "8"] if tier == "quick" else list(G.INDENTS)):
+            for indent in ((["0", "4"] if lam.startswith("inner-") else ["0", "4", "8"]) if tier == "quick" else list(G.INDENTS)):
                 for form in ("source", "func"):
                     if form == "func" and host == "bare":
                         continue
@@ -487,7 +487,8 @@ def worker_any(chunk):
 def run(res, tier, seed):
     res.bound = ("def texts: body {13 + 3 one-line forms} x docstring {10 literal styles} x comments {8 placements} x decorators {0,1,2,multi-line,commented} "
                  "x parameters {6 shapes incl. defaults, annotations, multi-line} x indentation {0,4,8%s} x cells name {same, longer%s} x return annotation; "
-                 "lambdas: 12 lambda texts x 11 host statements x indentation; each text as source string or as function object from a module file "
+                 "lambdas: 26 lambda texts (14 of them holding an inner lambda inside a generator expression / list, dict, set comprehension / "
+                 "conditional expression, with and without a condition clause) x 11 host statements x indentation; each text as source string or as function object from a module file "
                  "(alternating; every lambda in both forms); 28 special texts x both forms x 3 names; @mx.defcells in module files; "
                  "edit sequences of doc=d (9 texts d) and rename rotate over the cases; %s"
                  % (", 2, tab" if tier == "thorough" else "", ", shorter" if tier == "thorough" else "",
